@@ -47,7 +47,7 @@ int main(int argc, char** argv)
 
    std::string text;
 
-   if(inst == "readColName")
+   if(inst == "readColName" || inst == "readColName_rat")
       text = std::string((size_t)(len - off), 'x');
    else if(inst == "hasRowName")
       text = (len - off >= 1) ? std::string((size_t)(len - off - 1), 'r') + ":" : std::string();
@@ -104,6 +104,15 @@ int main(int argc, char** argv)
       LPColSetBase<double> colset;
       LPColBase<double> emptycol;
       int idx = LPFreadColName<double>(pos, &names, colset, in.geti("have_empty", 1) ? &emptycol : nullptr, nullptr);
+      std::cout << "returned " << idx << ", pos advanced by " << (pos - line - off) << std::endl;
+   }
+   else if(inst == "readColName_rat")
+   {
+      std::cout << "LPFreadColName (spxlpbase_rational.hpp) on a name of " << text.size() << " characters" << std::endl;
+      NameSet names;
+      LPColSetBase<Rational> colset;
+      LPColBase<Rational> emptycol;
+      int idx = LPFreadColName(pos, &names, colset, in.geti("have_empty", 1) ? &emptycol : nullptr, nullptr);
       std::cout << "returned " << idx << ", pos advanced by " << (pos - line - off) << std::endl;
    }
    else
